@@ -117,6 +117,26 @@ CHECKS = {
             "For every operation of the write path (stat, mkstemp in the same directory, write, flush, fsync, close, chmod, rename, cleanup) and each outcome (ok / raises / process dies) the real code is driven there by injected faults or os._exit in a forked child, and the directory afterwards must be a state the model allows: the target is the complete original or the complete fixed content, no temp file remains on return, mode, encoding and BOM are kept, with a suffix the original is untouched; the syscall trace shows temp in the same directory, data synced before rename, target never opened for writing.",
             "580 plan replays (quick). fsync removal is only observable in the strace trace. Known finding: shutil.move falls back to an in-place copy when rename fails. Notes: notes/C26.md.",
             "DESIGN.md §5 C26"),
+    "C13": (MC, "TLA+ transcription of Linter.lint_fix_parsed (spec/FixLoop.tla: phases, loop counter, previous_versions, last_fixes, validity, limit rollback) with contract AdoptedTreesValid / NoRevisit / LimitRollback, TLC exhaustive, every behaviour replayed into the real engine with synthetic rules; contract state machine over recorded fix runs (spec/FixContract.tla + FixTrace.tla): re-parse of the fixed text must be clean when the input was",
+            "24 976 enumerated rule behaviours (3 versions, 2 rules, limits 1-3, phase and fix-compatibility assignments) are replayed into the real lint_fix_parsed: an invalid version is never adopted, a limit hit returns the original tree; recorded fix runs over fixtures of every dialect, rule cases, templated cases and operator/keyword-adjacent mutants must re-lex and re-parse cleanly whenever the input did.",
+            "Rules are abstracted as version -> proposal functions in the model; the 80 rules themselves are decided on explored inputs. Known findings: LT01 touch between signs (F15), RF06 unquoting a host, F12/F13 templated cases. Notes: notes/C13.md.",
+            "DESIGN.md §5 C13"),
+    "C17": (MC, "spec/FixLoop.tla: TLC establishes IdempotentIfAcyclic (acyclic proposal graph, no limit hit, fix-compatible proposers => a second run adopts nothing) and exhibits the counterexample for each dropped hypothesis; behaviours replayed into the real engine; FixTrace clause SecondRunNoChange on recorded double fix runs (format rules, layout group, all rules)",
+            "The engine is shown idempotent exactly up to rule oscillation on the model and on the real lint_fix_parsed (24 976 replays); for recorded inputs (fixtures of every dialect, rule cases with fixes, layout-config variations) fixing the fixed text again must change nothing.",
+            "Known findings: LT05/LT09 undo each other on a single long select target (F7), an exasol fixture where a fresh parse gives LT02 new fixes. The sticky rules_this_phase quirk is modelled as it is. Notes: notes/C17.md.",
+            "DESIGN.md §5 C17"),
+    "C12": (EX, "FixContract.tla clause Relex (token sequence of the re-lexed fixed text == non-meta leaves of the fixed tree) validated by FixTrace on recorded fix runs incl. whitespace/operator-adjacent mutants",
+            "For every recorded fix run (fixtures of every dialect, rule cases, mutants such as `a - -b`, `a/ *b`, keyword gluing) the fixed text is re-lexed with the same dialect and must give exactly the fixed tree's tokens: fixes never glue two tokens into one or split one in two.",
+            "Exploration. Known findings: LT01 touch between signs / number and dot / bracket (F15 class), RF06 host unquoting. Notes: notes/C12.md.",
+            "DESIGN.md §5 C12"),
+    "C14": (EX, "FixContract.tla clause LayoutStep (per adopted fix batch of a layout rule: sequence of non-whitespace, non-comment token texts of the rendered SQL unchanged, multiset of comments unchanged) validated by FixTrace on recorded layout-only fix runs x layout configurations",
+            "Layout-only fix runs over fixtures of every dialect, whitespace mutants and templated cases under comma / operator position, indent unit, line length and implicit-indent variations: every adopted batch may add, remove or move only spaces, tabs and newlines.",
+            "Exploration; comments compared modulo trailing spaces. Known findings: F12 (templated expression written twice), F13 (LT04 moves a comma across a loop body). Notes: notes/C14.md.",
+            "DESIGN.md §5 C14"),
+    "C15": (EX, "FixContract.tla clause CapStep (same token count; each token equal, or of an unquoted keyword/identifier/function/type/boolean-null kind and casefold-equal) validated by FixTrace on recorded runs of CP01-CP05 x every policy x case mutants",
+            "Capitalisation-only fix runs over fixtures of every dialect, case mutants, quoted identifiers, strings and comments under every capitalisation policy of each rule: output differs from input only in the letter case of unquoted tokens.",
+            "Exploration. Known findings: the `snake` policy inserts underscores by design (F8); materialize CP01 upper-cases a quoted size. Notes: notes/C15.md.",
+            "DESIGN.md §5 C15"),
     "C20": (MC, "TLA+ contract + transcription of IgnoreMask (spec/Noqa.tla), TLC exhaustive; spec->code replay of every enumerated case; code->spec trace validation of generated files (NoqaTrace)",
             "TLC shows the transcribed masking algorithm refines the noqa contract for every directive list/violation set in scope, every such case is replayed into the real IgnoreMask, and recorded lint runs of generated files (all reference forms, tree and source-fallback masks, disable_noqa) are validated against the same contract.",
             "Scope: 3 lines, <=2 (quick) / <=3 (thorough) directives, <=2 violations, codes {A,B,PRS}. Trusted: object builders, file concretiser, code mapping LT01/CP01/PRS. `used` of enable directives and of several directives hiding the same violation is left unconstrained (ambiguous in the statement).",
